@@ -326,10 +326,10 @@ func famLong(tw *traceWriter, r *rand.Rand, n int) {
 				return
 			}
 			elem := prim("int", false, None, None, []Test{{Kind: "gte", N: 2, Code: "gte"}}, nil)
-			vals := make([]*Input, 20)
+			vals := make([]*Input, 70)
 			for j := range vals {
 				v := 3
-				if j == 0 || (j >= 8 && j <= 17) || j == 19 {
+				if j == 0 || (j >= 8 && j <= 17) || j == 19 || j >= 62 {
 					v = 1 // fails gte 2
 				}
 				vals[j] = val(v)
